@@ -495,6 +495,7 @@ class BaseParser:
         excluded_keys: List[str] = None,
     ):
         addition = {}
+        additional = {}
         result = {}
         dependencies = set()
         unprovided_fields = set()
@@ -514,9 +515,9 @@ class BaseParser:
                 # as field_first_parse has it (e.g. def f(a, /, **kwargs): f(1, a=2))
                 field = None
             if not field:
-                add_value = self.parse_addition(key, value, context=context)
-                if not unprovided(add_value):
-                    addition[key] = add_value
+                # an additional item: converted after the fields, one per spelling (of two keys with the same str()
+                # the later one counts), as field_first_parse has it: which failure comes first must not depend on the strategy
+                additional[key] = value
                 continue
             if key not in field.all_aliases:
                 # matched case-insensitively
@@ -610,6 +611,11 @@ class BaseParser:
                 )
 
         # check dependencies before addition
+
+        for key, value in additional.items():
+            add_value = self.parse_addition(key, value, context=context)
+            if not unprovided(add_value):
+                addition[key] = add_value
 
         if addition:
             result.update(addition)
